@@ -19,6 +19,8 @@ namespace XzVerif.Shell
 
 abbrev Bytes := List UInt8
 
+deriving instance DecidableEq for Except
+
 abbrev TAB : UInt8 := 9
 abbrev NL : UInt8 := 10
 abbrev SP : UInt8 := 32
@@ -467,6 +469,11 @@ def caseSelect {α : Type} : List (List Glob × α) → Bytes → Option α
   | [], _ => none
   | (gs, r) :: arms, s => if gs.any (globMatch · s) then some r else caseSelect arms s
 
+/-- `case name in PATS₁) r₁;; PATS₂) r₂;; … esac` with the pattern lists given as script text.
+    Outer `none`: a pattern outside the modelled subset; inner `none`: no arm matches. -/
+def dispatch {α : Type} (arms : List (Bytes × α)) (name : Bytes) : Option (Option α) :=
+  (arms.mapM fun (pr : Bytes × α) => (parseAlts pr.1).map fun gs => (gs, pr.2)).map fun as => caseSelect as name
+
 /-! ## the quoting pipelines of the scripts, parametric in the script text (instantiated with Gen/C20.lean) -/
 
 abbrev VarEnv := Bytes → Bytes
@@ -623,6 +630,13 @@ def runStmts : List Stmt → Env → Flow
 
 /-! ### closed forms (what the blocks are meant to compute) -/
 
+/-- `res` after a file whose final grep-side status is `r`: errors (≥ 2) only ever raise it, a match (0) turns the
+    initial 1 into 0, "no match" (1) leaves it alone. -/
+def resUpdate (r res : Nat) : Nat :=
+  if r ≥ 2 then (if res < r then r else res)
+  else if r = 0 then (if res = 1 then 0 else res)
+  else res
+
 /-- xzgrep, after one file: `r` = status of the grep side, `xz` = decompressor status (`none`: never reported),
     `res` = running result. `inl n`: exit immediately with n; `inr res'`: go on with the next file. -/
 def grepFileStep (r : Nat) (xz : Option Nat) (res : Nat) : Nat ⊕ Nat :=
@@ -630,9 +644,9 @@ def grepFileStep (r : Nat) (xz : Option Nat) (res : Nat) : Nat ⊕ Nat :=
   match xz with
   | none => .inl 2
   | some x =>
-      if x ≥ 128 ∧ x ≠ pipeStatus then .inl x else
-      let r' := if 0 < x ∧ x < 128 ∧ r < 2 then 2 else r
-      if r' ≥ 2 then .inr (max res r') else if r' = 0 ∧ res = 1 then .inr 0 else .inr res
+      if x ≥ 128 then (if x = pipeStatus then .inr (resUpdate r res) else .inl x)
+      else if x > 0 then .inr (resUpdate (if r < 2 then 2 else r) res)
+      else .inr (resUpdate r res)
 
 /-- xzgrep sed fallback: grep's status `r`, the pipeline's (sed's) status `p`. -/
 def grepSedStatus (r p : Nat) : Nat := if p = 0 then r else max r (max p 2)
